@@ -203,6 +203,6 @@ def strat(tier):
 
 
 SUBS = [
-    Sub("metamorphic", body, strategy=strat, examples={"quick": 1400, "thorough": 20000}, shards={"quick": 16, "thorough": 16}),
+    Sub("metamorphic", body, strategy=strat, examples={"quick": 1000, "thorough": 20000}, shards={"quick": 16, "thorough": 16}),
     Sub("identity_independence", body_identity, strategy=strat_identity, examples={"quick": 400, "thorough": 8000}, shards={"quick": 16, "thorough": 16}, shrink=False),
 ]
